@@ -125,9 +125,15 @@ MENU = {
 }
 IDS = list(MENU)
 CONFIGS = ['shared', 'separate', 'different']
-# pairs whose members touch state shared between executions (module-level balance cache; shared AST
-# rewritten by the compiler): explored with 2 preemptions at line granularity in the thorough tier
-SHARED_STATE_PAIRS = [('bal2', 'bal2'), ('pos2', 'pos2'), ('pos1', 'pos1'), ('insub', 'insub')]
+# Thorough tier, 2 preemptions at line granularity for the pairs touching state shared between executions, with
+# the line points restricted to the modules that hold that state (a full-module product would be ~10^6 schedules):
+# the module-level `balance` cache (query_env / query_execute) and the shared AST rewritten by the compiler.
+LINE2 = [
+    ('line:query_env.py,query_execute.py', 'shared', ('bal2', 'bal2')),
+    ('line:query_env.py,query_execute.py', 'different', ('bal2', 'bal2')),
+    ('line:compiler.py', 'shared', ('pos2', 'pos2')),
+    ('line:compiler.py', 'shared', ('pos1', 'pos1')),
+]
 
 _ENV = {}
 
@@ -236,7 +242,16 @@ class Item:
         self.mode, self.config, self.ids, self.bound = mode, config, tuple(ids), bound
         self.seed, self.sub, self.cap = seed, tuple(sub), cap
         self.e = env(seed)
-        self.trace_files = (os.path.join(os.path.dirname(os.path.realpath(beanquery.__file__)), ''),) if mode == 'line' else None
+        # mode: 'yield' (points (i)+(ii) only) | 'line' (every line of beanquery/*.py) | 'line:a.py,b.py' (those files)
+        bq = os.path.join(os.path.realpath(REPO), 'beanquery', '')
+        if not os.path.realpath(beanquery.__file__).startswith(bq):
+            raise sched.HarnessError(f'beanquery is imported from {beanquery.__file__}, not from {bq}')
+        if mode == 'yield':
+            self.trace_files = None
+        elif mode == 'line':
+            self.trace_files = (bq,)
+        else:
+            self.trace_files = tuple(bq + name for name in mode.split(':', 1)[1].split(','))
 
     def label(self):
         return f'{self.mode}/{self.config}/{"+".join(self.ids)}/p{self.bound}'
@@ -360,7 +375,7 @@ def run_item(item, acc, on_violation=None):
     outkey = ('outcomes', item.mode, item.config, item.ids, item.bound)
     joint = lambda o: tuple(okey(r) for r in o.results)   # noqa: E731
 
-    confirmed = {}
+    best = {}     # fingerprint -> the KEEP_PER_FP simplest failing schedules of this work item [(rank, out, what)]
 
     def visit(out):
         acc.count('evaluations', len(out.results))
@@ -369,29 +384,28 @@ def run_item(item, acc, on_violation=None):
         if not bad:
             return
         acc.count('violating_schedules')
+        first_switch = next((k for k, t in enumerate(out.trace) if t != out.trace[0]), len(out.trace))
+        rank = (len(item.ids), item.mode != 'yield', out.preemptions, out.switches, first_switch, len(out.trace),
+                CONFIGS.index(item.config), tuple(out.picks))
         for fp, what in bad:
             acc.count('violating|' + fp)
-        # a failing schedule is reported only if it reproduces exactly, twice, from fresh state; per work item and
-        # fingerprint the first CONFIRM_PER_FP failing schedules are confirmed, later ones are only counted
-        bad = [b for b in bad if confirmed.get(b[0], 0) < CONFIRM_PER_FP]
-        if not bad:
-            acc.count('violating_schedules_not_replayed')
-            return
-        for fp, _ in bad:
-            confirmed[fp] = confirmed.get(fp, 0) + 1
-        reps = sched.confirm(item.world, out, joint, times=2, record_tags=True, **kw)
-        acc.count('confirm_replays', 2)
-        for fp, what in bad:
-            first_switch = next((k for k, t in enumerate(out.trace) if t != out.trace[0]), len(out.trace))
-            rank = (len(item.ids), item.mode == 'line', out.preemptions, out.switches, first_switch, len(out.trace),
-                    CONFIGS.index(item.config))
-            msg = (f'config={item.config} threads={list(item.ids)} points={item.mode} schedule(thread ids)={out.trace} '
-                   f'({out.preemptions} preemption(s): {describe(reps[0])}): {what}')
-            acc.add('viol', (rank, fp, msg, json.dumps(item.case(out, fp), sort_keys=True)))
-            if on_violation:
-                on_violation(fp, msg, out)
+            lst = best.setdefault(fp, [])
+            lst.append((rank, out, what))
+            lst.sort(key=lambda x: x[0])
+            del lst[KEEP_PER_FP:]
 
     st = sched.explore(item.world, visit, preemption_bound=item.bound, shard=item.sub, max_schedules=item.cap, **kw)
+    # A failing schedule is reported only after it reproduced exactly (decisions and observations), twice, from
+    # fresh state.  The simplest failing schedules of each fingerprint are the ones replayed and reported.
+    for fp, lst in sorted(best.items()):
+        for rank, out, what in lst:
+            reps = sched.confirm(item.world, out, joint, times=2, record_tags=True, **kw)
+            acc.count('confirm_replays', 2)
+            msg = (f'config={item.config} threads={list(item.ids)} points={item.mode} schedule(thread ids)={out.trace} '
+                   f'({out.preemptions} preemption(s): {describe(reps[0])}): {what}')
+            acc.add('viol', (rank[:-1], fp, msg, json.dumps(item.case(out, fp), sort_keys=True)))
+            if on_violation:
+                on_violation(fp, msg, out)
     # shared ASTs without placeholders must not have been modified by anybody
     for sid in set(item.ids):
         if item.e['ast'][sid] != item.e['pristine'][sid]:
@@ -459,14 +473,16 @@ def plan(ctx):
         for config in CONFIGS:
             for ids in pairs:
                 add('line', config, ids, 1, 2 + sum(lpts[s] for s in ids), 500)
-        for config in CONFIGS:
-            for ids in SHARED_STATE_PAIRS:
-                add('line', config, ids, 2, lpts[ids[0]] * lpts[ids[1]], 6000, cap=LINE2_CAP)
+        for mode, config, ids in LINE2:
+            n = [count_points(mode, sid, seed) for sid in ids]
+            lpts[f'{mode} {"+".join(ids)}'] = n
+            est = 2 * n[0] * n[1] + 2 * (n[0] + n[1])
+            add(mode, config, ids, 2, est, 2500, cap=LINE2_CAP)
     return specs, pts, lpts
 
 
-CONFIRM_PER_FP = 40
-LINE2_CAP = 8000     # executions per sub-shard of a 2-preemption line-granularity item
+KEEP_PER_FP = 3
+LINE2_CAP = 6000     # executions per sub-shard of a 2-preemption line-granularity item
 
 
 def shard_fn(shard, nshards, specs):
@@ -532,18 +548,19 @@ def run(ctx):
     for fp, lst in best.items():
         n = total.n.get('violating|' + fp, 0)
         for msg, cj in lst[:1]:
-            violations.append(Violation(fp, f'{msg}  [{n} violating schedule(s) in this run; reported ones reproduced twice from fresh state]', json.loads(cj)))
+            violations.append(Violation(fp, f'{msg}  [{n} violating schedule(s) in this run; the reported one is the simplest and reproduced twice from fresh state]', json.loads(cj)))
 
     per_config = {}
     outcome_sets = {k: v for k, v in total.sets.items() if isinstance(k, tuple) and k[0] == 'outcomes'}
-    for mode in ('yield', 'line'):
+    modes = sorted({k[1] for k in outcome_sets}, key=lambda m: (m != 'yield', m))
+    for mode in modes:
         for config in CONFIGS:
             for n in (2, 3):
                 pre = f'{mode}|{config}|{n}'
                 if not total.n.get('sched|' + pre):
                     continue
                 outs = {k: len(v) for k, v in outcome_sets.items() if k[1] == mode and k[2] == config and len(k[3]) == n}
-                per_config[f'{mode}:{config}:{n}threads'] = {
+                per_config[f'{mode}/{config}/{n}threads'] = {
                     'tuples': len(total.sets['items|' + pre]),
                     'schedules': total.n['sched|' + pre],
                     'distinct_outcomes_total': sum(outs.values()),
@@ -573,8 +590,9 @@ def run(ctx):
                   '3 threads: all schedules with <= 2 preemptions for %d triples x 3 configurations'
                   % (len(total.sets['items|yield|shared|2']), len(total.sets['items|yield|shared|3'])))
                  + ('; line granularity (sys.settrace, a point before every line of beanquery/*.py): all schedules with <= 1 '
-                    'preemption for all pairs, <= 2 preemptions for the shared-state pairs %s (capped at %d executions per '
-                    'sub-shard)' % (SHARED_STATE_PAIRS, LINE2_CAP) if ctx.thorough else ''),
+                    'preemption for all pairs x 3 configurations; <= 2 preemptions with line points restricted to the modules '
+                    'holding the shared state for %s (at most %d executions per sub-shard)'
+                    % ([f'{m} {c} {"+".join(i)}' for m, c, i in LINE2], LINE2_CAP) if ctx.thorough else ''),
         'caps_hit': [f'{label} sub-shard {s}: {u} prefixes unexplored' for label, s, u in capped][:40],
         'caps_hit_count': len(capped),
         'horizon_hit': horizon,
@@ -583,12 +601,11 @@ def run(ctx):
         'schedules_with_preemption': total.n['preempting'],
         'alternatives_pruned_by_preemption_bound': total.n['pruned_by_bound'],
         'max_points_in_one_execution': max(total.sets.get('maxpoints', {0})),
-        'max_points_by_granularity': {m: max(total.sets.get('maxpoints|' + m, {0})) for m in ('yield', 'line')},
+        'max_points_by_granularity': {m: max(total.sets.get('maxpoints|' + m, {0})) for m in modes},
         'points_per_statement_alone': pts,
         'line_points_per_statement_alone': lpts,
         'per_configuration': per_config,
         'violating_schedules': total.n['violating_schedules'],
-        'violating_schedules_not_replayed': total.n['violating_schedules_not_replayed'],
         'violating_schedules_by_fingerprint': {k.split('|', 1)[1]: v for k, v in total.n.items() if k.startswith('violating|')},
         'confirm_replays': total.n['confirm_replays'],
         'deadlocks': total.n['deadlocks'],
